@@ -25,9 +25,16 @@ R = Registry(
         "(DefaultExecutionContext._process_execute_defaults): insert_prefetch is paired with the .default "
         "description and get_insert_default, update_prefetch with .onupdate and get_update_default, each "
         "(row, column) gets at most one store chosen by an if/elif chain whose tests and uses follow the field "
-        "order of _DefaultDescriptionTuple, current_parameters/current_column are set before a callable runs."
+        "order of _DefaultDescriptionTuple, current_parameters/current_column are set before a callable runs; "
+        "the supplied-vs-default decision of every column scan (first row, later multi-VALUES rows, INSERT FROM "
+        "SELECT, multi-table UPDATE) reads key membership only, never the supplied value or the column's default "
+        "state (R4); every default-applying loop covers the table's whole column collection in every ordering mode "
+        "(ordered_values: named columns + all remaining ones, filtered by nothing else) and no default application "
+        "is narrowed by a positive `key in <supplied>` guard (R5); ORM flush: each record's post-fetch receives the "
+        "compiled parameter set of its own row after an executemany (R6)."
     ),
-    not_decided="the values stored; heterogeneous executemany parameter sets; ORM persistence paths; server-side defaults.",
+    not_decided="the values stored; Core executemany with heterogeneous dictionaries (documented: only the first dictionary "
+                "determines the VALUES columns); the ORM's 'None means omitted' rule for INSERT; server-side defaults.",
 )
 
 CRUD = "sql/crud.py"
@@ -455,27 +462,40 @@ def r4(ctx):
                     sup = {mp for k, mp in _membership_any(t) if _supplied_mapping(mp, f)}
                     if sup and pol is True:
                         gates.setdefault(id(t), (f, t, sup))
-    items = sorted(gates.values(), key=lambda x: (x[1].lineno, x[1].col_offset))
-    ctx.require(items, "no supplied-vs-default gating test found in sql/crud.py")
-    for key, (f, t, sup) in ordinal_keys(items, lambda x: f"{x[0].key}:supplied-test"):
-        ctx.functions_analysed.add(f.key)
+    # one instance per column-scanning function (stable under edits that remove a gate: C13-R1 reports those)
+    scanners = {}
+    for f, c, nm in sites:
+        scanners.setdefault(f.key, f)
+    for f in m.functions.values():
+        if any(call_name(c) == SUPPLIED_BRANCH for c in calls_in(f.node, into_nested=True)):
+            scanners.setdefault(f.key, f)
+    ctx.require(gates, "no supplied-vs-default gating test found in sql/crud.py")
+    for fkey, f in sorted(scanners.items()):
+        ctx.functions_analysed.add(fkey)
+        mine = sorted((g for g in gates.values() if g[0] is f), key=lambda x: (x[1].lineno, x[1].col_offset))
+        key = f"{fkey}:supplied-test"
+        if not mine:
+            ctx.ok(key, "no `key in <supplied values>` gate recognised here (reported by C13-R1)", nontrivial=False)
+            continue
         bad, unknown = [], []
-        for leaf in _leaves(t):
-            if _is_membership(leaf) and _reads_value_of(leaf, sup) is None:
-                continue
-            rd = _reads_value_of(leaf, sup)
-            if rd is not None:
-                bad.append((unparse(leaf)[:70], rd))
-            else:
-                unknown.append(unparse(leaf)[:70])
-        ctx.require(not unknown or bad, f"{f.key}: conjunct(s) {unknown} of the supplied/omitted test `{unparse(t)[:80]}` "
-                                        f"are neither key membership nor a value/default read (not understood)")
+        for _, t, sup in mine:
+            for leaf in _leaves(t):
+                rd = _reads_value_of(leaf, sup)
+                if _is_membership(leaf) and rd is None:
+                    continue
+                if rd is not None:
+                    bad.append((t, unparse(leaf)[:70], rd))
+                else:
+                    unknown.append(unparse(leaf)[:70])
+        ctx.require(not unknown or bad, f"{fkey}: conjunct(s) {unknown} of a supplied/omitted test are neither key membership "
+                                        f"nor a value/default read (not understood)")
         ctx.check(not bad, key,
-                  f"the test `{unparse(t)[:110]}` that chooses between the supplied value and the column default reads "
-                  f"{'; '.join(f'`{rd}` (in `{lf}`)' for lf, rd in bad)}: whether a value counts as supplied must depend on key "
-                  f"membership only -- a supplied value (e.g. None) would be replaced by the default, and rows/siblings "
-                  f"that use the plain membership test would disagree",
-                  f"`{unparse(t)[:70]}`: membership atoms only", f"{m.path}:{t.lineno}")
+                  "; ".join(f"the test `{unparse(t)[:110]}` that chooses between the supplied value and the column default "
+                            f"reads `{rd}` (in `{lf}`)" for t, lf, rd in bad)
+                  + ": whether a value counts as supplied must depend on key membership only -- a supplied value (e.g. None) "
+                    "would be replaced by the default, and rows/siblings that use the plain membership test would disagree",
+                  " | ".join(f"`{unparse(t)[:70]}`" for _, t, _ in mine) + ": membership atoms only",
+                  f"{m.path}:{mine[0][1].lineno}")
 
 
 def _membership_any(test):
@@ -704,6 +724,99 @@ def _ancestors(pm, node, stop):
         yield a
 
 
+# ---------------------------------------------------------------------- R6 (str-e): ORM executemany post-fetch
+PERS = "orm/persistence.py"
+
+
+def _innermost_loop(pm, node, stop):
+    for a in _ancestors(pm, node, stop):
+        if isinstance(a, (ast.For, ast.AsyncFor)):
+            return a
+    return None
+
+
+def _is_compiled_params(e):
+    """`<result>.context.compiled_parameters` -> name of <result>, else None."""
+    if isinstance(e, ast.Attribute) and e.attr == "compiled_parameters" and isinstance(e.value, ast.Attribute) \
+            and e.value.attr == "context" and isinstance(e.value.value, ast.Name):
+        return e.value.value.id
+    return None
+
+
+@R.rule("C13-R6", floor=8, template="T-SIBLING (per-record parameter set after executemany)",
+        desc="orm/persistence.py: every _postfetch / _postfetch_post_update call receives the compiled parameter set of "
+             "ITS OWN row (the prefetched default / onupdate values copied onto the object are the ones stored for that "
+             "row): `compiled_parameters[0]` only when the statement was executed for this record alone (execute() in "
+             "the same loop iteration); after an executemany the set is taken by the record's index or zipped with the records")
+def r6(ctx):
+    m = ctx.index.module(PERS)
+    pm = m.parents()
+    sites = []
+    for name in ("_postfetch", "_postfetch_post_update"):
+        tgt = ctx.func(f"{PERS}::{name}")
+        ctx.require("params" in tgt.params, f"{name} has no `params` parameter any more")
+        pos = tgt.params.index("params")
+        for f in m.functions.values():
+            if f.is_overload or f is tgt:
+                continue
+            for c in calls_in(f.node, into_nested=True):
+                if call_name(c) == name:
+                    sites.append((f, c, name, pos))
+    sites.sort(key=lambda x: (x[1].lineno, x[1].col_offset))
+    ctx.require(sites, "no _postfetch call found in orm/persistence.py")
+    for key, (f, c, name, pos) in ordinal_keys(sites, lambda x: f"{x[0].key}:{x[2]}:params-of-own-row"):
+        ctx.functions_analysed.add(f.key)
+        kw = {k.arg: k.value for k in c.keywords if k.arg}
+        arg = kw.get("params") if "params" in kw else (c.args[pos] if len(c.args) > pos else None)
+        ctx.require(arg is not None and not any(isinstance(a, ast.Starred) for a in c.args),
+                    f"{f.key}: `params` argument of `{name}(...)` at line {c.lineno} not found")
+        loop = _innermost_loop(pm, c, f.node)
+        loc = f"{m.path}:{c.lineno}"
+        verdict, detail = None, ""
+        if isinstance(arg, ast.Subscript) and _is_compiled_params(arg.value):
+            res = _is_compiled_params(arg.value)
+            idx = arg.slice
+            if isinstance(idx, ast.Constant) and idx.value == 0:
+                # which execute() produced <res>?  it must run once per record, i.e. inside the same innermost loop
+                binds = [st for n, v, st in name_stores(f.node) if n == res and isinstance(v, ast.Call)
+                         and isinstance(v.func, ast.Attribute) and v.func.attr == "execute"]
+                ctx.require(binds, f"{f.key}: `{res}` is not bound to an execute() result")
+                # the binding that reaches the call: the closest preceding one
+                prior = [b for b in binds if b.lineno <= c.lineno]
+                ctx.require(prior, f"{f.key}: no execute() precedes `{name}(...)` at line {c.lineno}")
+                b = max(prior, key=lambda st: st.lineno)
+                same_iter = loop is not None and _innermost_loop(pm, b, f.node) is loop
+                if loop is None:
+                    verdict, detail = True, f"single execution, `{res}.context.compiled_parameters[0]`"
+                elif same_iter:
+                    verdict, detail = True, f"execute() and post-fetch in the same iteration, `[0]` is this record's set"
+                else:
+                    verdict = False
+                    detail = (f"`{name}(...)` runs once per record in `for ... in {unparse(loop.iter)[:40]}` but receives "
+                              f"`{unparse(arg)}` of the execute() at line {b.lineno}, which ran once for all records "
+                              f"(executemany): every record is post-fetched with the FIRST row's prefetched default / "
+                              f"onupdate values, although each row stored its own (sibling paths use the record's index / zip)")
+            elif isinstance(idx, ast.Name):
+                # index variable of the enclosing loop (enumerate)
+                tn = {n.id for n in ast.walk(loop.target) if isinstance(n, ast.Name)} if loop is not None else set()
+                enum = loop is not None and isinstance(loop.iter, ast.Call) and call_name(loop.iter) == "enumerate"
+                verdict = idx.id in tn and enum
+                detail = f"indexed by the record's position `{idx.id}`" if verdict else \
+                    f"`{unparse(arg)}`: `{idx.id}` is not the enumerate() index of the record loop"
+            else:
+                ctx.require(False, f"{f.key}: index `{unparse(idx)}` of compiled_parameters not understood")
+        elif isinstance(arg, ast.Name):
+            tn = {n.id for n in ast.walk(loop.target) if isinstance(n, ast.Name)} if loop is not None else set()
+            zipped = loop is not None and isinstance(loop.iter, ast.Call) and (call_name(loop.iter) or "").rsplit(".", 1)[-1] in ("zip", "zip_longest") \
+                and any(_is_compiled_params(a) for a in loop.iter.args)
+            ctx.require(arg.id in tn and zipped, f"{f.key}: `params={arg.id}` of `{name}(...)` at line {c.lineno} is not a loop variable "
+                                                 f"zipped with compiled_parameters (not understood)")
+            verdict, detail = True, f"`{arg.id}` zipped with compiled_parameters per record"
+        else:
+            ctx.require(False, f"{f.key}: `params` argument `{unparse(arg)[:60]}` of `{name}(...)` not understood")
+        ctx.check(bool(verdict), key, detail, detail, loc)
+
+
 # ---------------------------------------------------------------------- self-test battery
 R.mutant("default-outside-else-chain", CRUD,
          sub("        # adding supplemental cols to implicit_returning in table\n",
@@ -759,3 +872,51 @@ R.mutant("benign-rename-row-loop-var", DEF,
 R.mutant("benign-extra-elif-arm", CRUD,
          sub("            elif (\n                c.primary_key\n                and c is not stmt.table._autoincrement_column\n                and not c.nullable\n            ):\n                _warn_pk_with_no_anticipated_value(c)\n",
              "            elif (\n                c.primary_key\n                and c is not stmt.table._autoincrement_column\n                and not c.nullable\n            ):\n                _warn_pk_with_no_anticipated_value(c)\n            else:\n                pass\n"), None)
+
+# ---- R4 / R5 (str-e): seeds C13/1, C13/2 and relatives
+R.mutant("seed2-later-rows-none-counts-as-omitted", CRUD,
+         sub("            if col.key in row:\n                key = col.key\n",
+             "            if col.key in row and (\n                row[col.key] is not None or not col.default\n            ):\n                key = col.key\n"), "C13-R4")
+R.mutant("first-row-none-counts-as-omitted", CRUD,
+         sub("    for c in cols:\n        # scan through every column in the target table\n\n        col_key = _getattr_col_key(c)\n\n        if col_key in parameters and col_key not in check_columns:\n",
+             "    for c in cols:\n        # scan through every column in the target table\n\n        col_key = _getattr_col_key(c)\n\n        if (\n            col_key in parameters\n            and parameters[col_key] is not None\n            and col_key not in check_columns\n        ):\n"), "C13-R4")
+R.mutant("from-select-default-wins-over-named-column", CRUD,
+         sub("        if col_key in parameters and col_key not in check_columns:\n            parameters.pop(col_key)\n            values.append((c, compiler.preparer.format_column(c), None, ()))\n",
+             "        if (\n            col_key in parameters\n            and col_key not in check_columns\n            and c.default is None\n        ):\n            parameters.pop(col_key)\n            values.append((c, compiler.preparer.format_column(c), None, ()))\n"), "C13-R4")
+R.mutant("seed1-ordered-values-scans-only-supplied-remainder", CRUD,
+         sub("        ] + [c for c in stmt.table.c if c.key not in ordered_keys]\n",
+             "        ] + [\n            c\n            for c in stmt.table.c\n            if c.key not in ordered_keys and c.key in parameters\n        ]\n"), "C13-R5")
+R.mutant("ordered-values-remainder-not-deduplicated", CRUD,
+         sub("        ] + [c for c in stmt.table.c if c.key not in ordered_keys]\n", "        ] + [c for c in stmt.table.c]\n"), "C13-R5")
+R.mutant("plain-mode-scans-filtered-columns", CRUD,
+         sub("    else:\n        cols = stmt.table.columns\n\n    isinsert = _compile_state_isinsert(compile_state)\n",
+             "    else:\n        cols = [\n            c\n            for c in stmt.table.columns\n            if c.key in parameters or c.default is not None\n        ]\n\n    isinsert = _compile_state_isinsert(compile_state)\n"), "C13-R5")
+R.mutant("update-defaults-only-for-supplied-keys", CRUD,
+         sub("        elif compile_state.isupdate:\n            # no parameter is present and it's an insert.\n\n            _append_param_update(",
+             "        elif compile_state.isupdate and c.key in parameters:\n            # no parameter is present and it's an insert.\n\n            _append_param_update("), "C13-R5")
+R.mutant("ordered-part-drops-named-column", CRUD,
+         sub("            if isinstance(key, str) and key in stmt.table.c\n        ] + [c for c in stmt.table.c if c.key not in ordered_keys]\n",
+             "            if isinstance(key, str)\n            and key in stmt.table.c\n            and stmt.table.c[key].onupdate is None\n        ] + [c for c in stmt.table.c if c.key not in ordered_keys]\n"), "C13-R5")
+# benign relatives
+R.mutant("benign-ordered-keys-renamed-setcomp", CRUD,
+         sub("        ordered_keys = set(parameter_ordering)\n        cols = [\n            stmt.table.c[key]\n            for key in parameter_ordering\n            if isinstance(key, str) and key in stmt.table.c\n        ] + [c for c in stmt.table.c if c.key not in ordered_keys]\n",
+             "        named = {k for k in parameter_ordering}\n        cols = [\n            stmt.table.c[key]\n            for key in parameter_ordering\n            if isinstance(key, str) and key in stmt.table.columns\n        ] + [col for col in stmt.table.columns if col.key not in named]\n"), None)
+R.mutant("benign-supplied-test-conjuncts-swapped", CRUD,
+         sub("        col_key = _getattr_col_key(c)\n\n        if col_key in parameters and col_key not in check_columns:\n            # parameter is present for the column.  use that.\n",
+             "        col_key = _getattr_col_key(c)\n\n        if col_key not in check_columns and col_key in parameters:\n            # parameter is present for the column.  use that.\n"), None)
+R.mutant("benign-multiparams-key-local-first", CRUD,
+         sub("            if col.key in row:\n                key = col.key\n\n                if coercions._is_literal(row[key]):",
+             "            key = col.key\n            if key in row:\n\n                if coercions._is_literal(row[key]):"), None)
+
+# ---- R6 (str-e)
+R.mutant("insert-executemany-postfetch-first-row-params", PERS,
+         sub("                ) in zip(records, result.context.compiled_parameters):\n                    if state:\n                        _postfetch(\n                            mapper_rec,\n                            uowtransaction,\n                            table,\n                            state,\n                            state_dict,\n                            result,\n                            last_inserted_params,\n",
+             "                ) in zip(records, result.context.compiled_parameters):\n                    if state:\n                        _postfetch(\n                            mapper_rec,\n                            uowtransaction,\n                            table,\n                            state,\n                            state_dict,\n                            result,\n                            result.context.compiled_parameters[0],\n"), "C13-R6")
+R.mutant("post-update-executemany-first-row-params", PERS,
+         sub("                    c.context.compiled_parameters[i],\n", "                    c.context.compiled_parameters[0],\n"), "C13-R6")
+R.mutant("benign-insert-executemany-rename-zipped-params", PERS,
+         sub("                    last_inserted_params,\n                ) in zip(records, result.context.compiled_parameters):\n                    if state:\n                        _postfetch(\n                            mapper_rec,\n                            uowtransaction,\n                            table,\n                            state,\n                            state_dict,\n                            result,\n                            last_inserted_params,\n",
+             "                    row_params,\n                ) in zip(records, result.context.compiled_parameters):\n                    if state:\n                        _postfetch(\n                            mapper_rec,\n                            uowtransaction,\n                            table,\n                            state,\n                            state_dict,\n                            result,\n                            row_params,\n"), None)
+R.mutant("benign-update-executemany-zipped-with-compiled-parameters", PERS,
+         sub("                    has_all_defaults,\n                    has_all_pks,\n                ) in records:\n                    if bookkeeping:\n                        _postfetch(\n                            mapper,\n                            uowtransaction,\n                            table,\n                            state,\n                            state_dict,\n                            c,\n                            c.context.compiled_parameters[0],\n",
+             "                    has_all_defaults,\n                    has_all_pks,\n                ), compiled_params in zip(\n                    records, c.context.compiled_parameters\n                ):\n                    if bookkeeping:\n                        _postfetch(\n                            mapper,\n                            uowtransaction,\n                            table,\n                            state,\n                            state_dict,\n                            c,\n                            compiled_params,\n"), None)
